@@ -157,6 +157,8 @@ def gen_params(rng, max_hosts=120, allow_alpha1=False, small_bias=True):
     uniform = rng.random() < 0.25
     S = rng.randint(1, 8 if uniform else 12)
     OS = rng.randint(1, 5)
+    if rng.random() < 0.05:
+        OS = rng.randint(10, 13)      # more names than single digits
     P = rng.randint(1, 5)
     p = {"num_hosts": n, "num_services": S, "num_os": OS,
          "num_processes": P, "uniform": uniform}
@@ -197,7 +199,7 @@ def gen_params(rng, max_hosts=120, allow_alpha1=False, small_bias=True):
         if r < 0.7:
             return rng.choice([1.0, 1.0, 0.5, 0.9, 0.05,
                                round(rng.uniform(0.01, 1.0), 3)])
-        return [rng.choice([1.0, 0.3, 0.6, 0.9,
+        return [rng.choice([1.0, 0.3, 0.6, 0.9, 0.004, 0.996,
                             round(rng.uniform(0.01, 1.0), 3)])
                 for _ in range(k)]
     p["exploit_probs"] = probs(ne, True)
@@ -221,6 +223,12 @@ def gen_params(rng, max_hosts=120, allow_alpha1=False, small_bias=True):
     else:
         p["address_space_bounds"] = [len(subs) + rng.randint(0, 4),
                                      max(subs) + rng.randint(0, 4)]
+    if p["address_space_bounds"] is not None and rng.random() < 0.03:
+        # very wide address space (host vectors of more than 1000 entries)
+        p["address_space_bounds"] = [len(subs) + rng.choice([0, 1000]),
+                                     max(subs) + rng.choice([0, 1100])]
+        if p["address_space_bounds"] == [len(subs), max(subs)]:
+            p["address_space_bounds"][0] += 1000
     p["seed"] = rng.randint(0, 2 ** 31 - 1)
     return p
 
@@ -308,7 +316,8 @@ def family_spec(rng, which=None):
     which = which or rng.choice(["pivot_traffic", "internet_only", "star",
                                  "two_sensitive_one_subnet", "honeypot",
                                  "deny_heavy", "balanced_tree",
-                                 "balanced_tree", "asymmetric"])
+                                 "balanced_tree", "asymmetric"] * 4
+                                + ["many_services", "long_chain"])
     if which == "asymmetric":
         doc = docgen.gen_doc(rng, shape=rng.choice(["random", "tree"]),
                              max_subnets=4, asym=True, open_firewall=True,
@@ -317,6 +326,10 @@ def family_spec(rng, which=None):
                 "family": which}
     if which == "balanced_tree":
         return balanced_tree_spec(rng)
+    if which == "many_services":
+        return many_services_spec(rng)
+    if which == "long_chain":
+        return long_chain_spec(rng)
     if which == "pivot_traffic":
         # pivot (has access) and traffic source differ: chain with closed
         # rules in one direction and per-host deny lists
@@ -397,3 +410,54 @@ def balanced_tree_spec(rng):
     doc["step_limit"] = rng.choice([6, 8, 12])
     return {"kind": "yaml", "text": docgen.emit(doc, rng),
             "family": "balanced_tree"}
+
+
+def many_services_spec(rng):
+    """More than 64 services (bit tables, one-hot blocks and name lookups
+    beyond the usual sizes), deny-lists and rules naming the high ones."""
+    doc = docgen.gen_doc(rng, max_subnets=3, max_hosts=2, deny_rate=0.0,
+                         step_limit=None)
+    srvs = [f"s{i}" for i in range(70)]
+    doc["services"] = srvs
+    hosts = doc["host_configurations"]
+    keys = list(hosts)
+    for k, h in hosts.items():
+        h["services"] = rng.sample(srvs, rng.randint(1, 70))
+        if rng.random() < 0.7:
+            h["firewall"] = {rng.choice(keys): rng.sample(
+                srvs[60:], rng.randint(1, 10))}
+    doc["exploits"] = {
+        f"e{i}": {"service": rng.choice(srvs[60:] if i % 2 else srvs),
+                  "os": "none", "prob": rng.choice([1.0, 0.8]),
+                  "cost": 1, "access": rng.choice(["user", "root"])}
+        for i in range(4)}
+    for k in doc["firewall"]:
+        doc["firewall"][k] = rng.sample(srvs, rng.randint(30, 70))
+    return {"kind": "yaml", "text": docgen.emit(doc, rng),
+            "family": "many_services"}
+
+
+def long_chain_spec(rng):
+    """A chain of 130 one-host subnets (subnet ids beyond int8)."""
+    n = 130
+    doc = docgen.gen_doc(rng, max_subnets=1, max_hosts=1, step_limit=None,
+                         deny_rate=0.0)
+    srvs, procs, oss = doc["services"], doc["processes"], doc["os"]
+    T = [[1 if i == j else 0 for j in range(n + 1)] for i in range(n + 1)]
+    for i in range(0, n):
+        T[i][i + 1] = T[i + 1][i] = 1
+    doc["subnets"] = [1] * n
+    doc["topology"] = T
+    doc["host_configurations"] = {
+        docgen.A(s, 0): {"os": oss[0], "services": list(srvs),
+                         "processes": list(procs)}
+        for s in range(1, n + 1)}
+    doc["sensitive_hosts"] = {docgen.A(3, 0): 100, docgen.A(n, 0): 100}
+    for e in doc["exploits"].values():
+        e["os"] = "none"
+        e["prob"] = 1.0
+    doc["firewall"] = {docgen.A(i, j): list(srvs)
+                       for i in range(n + 1) for j in range(n + 1)
+                       if i != j and T[i][j] == 1}
+    return {"kind": "yaml", "text": docgen.emit(doc, rng),
+            "family": "long_chain"}
